@@ -11,6 +11,7 @@ require (
 )
 
 require (
+	github.com/google/go-tpm v0.9.0 // indirect
 	go.uber.org/multierr v1.11.0 // indirect
 	golang.org/x/crypto v0.17.0 // indirect
 	golang.org/x/sys v0.19.0 // indirect
